@@ -59,6 +59,15 @@ def flatten(l):
     return list(iflatten(l))
 
 
+def plain_number(number):
+    """ The number as a plain int or float.  A host may hand in instances of subclasses (a member of an
+    IntEnum, a numpy.float64): the statistics module converts its result back to the class of the
+    data, and IntEnum(2.5) - or a member for a mean that is no member - is an error. """
+    if type(number) in (int, float, bool) or not isinstance(number, (int, float)):
+        return number
+    return int(number) if isinstance(number, int) else float(number)
+
+
 def inumbers(l, try_parse=False, text_is_zero=False):
     """ only the numbers """
     for el in iflatten(l):
@@ -69,7 +78,7 @@ def inumbers(l, try_parse=False, text_is_zero=False):
         if try_parse:
             el = to_number(el)
         if isinstance(el, number_types):
-            yield el
+            yield plain_number(el)
         elif text_is_zero and isinstance(el, string_types):
             yield 0
 
